@@ -11,57 +11,88 @@ namespace CaddyModel.C08
 /-- a plain upstream: no passive policy, no circuit breaker, no limit, no load -/
 def upW (id : Nat) (healthy : Bool) : Up := ⟨id, healthy, 0, none, none, 0, 0, 0⟩
 
+/-- a counter-example: `n` consecutive selections of policy `p` on `pool` (no draws needed) -/
+structure Wit where
+  p : Policy
+  pool : Pool
+  n : Nat
+
+def Wit.results (w : Wit) : List Res := (run w.n w.p w.pool []).1.map (·.1)
+
+def wPanicIndex : Wit := ⟨.wrr [1, 1] 0, [upW 1 false, upW 2 true, upW 3 true], 1⟩
+def wPanicDivide : Wit := ⟨.wrr [0, 0] 0, [upW 1 true], 1⟩
+def wPanicNilWriter : Wit := ⟨.keyed false (.cookie none .first), [upW 1 true], 1⟩
+def wRRWrapNil : Wit := ⟨.rr 4294967294, [upW 1 false, upW 2 false, upW 3 true], 1⟩
+def wRRWrapRepeat : Wit := ⟨.rr 4294967294, [upW 1 true, upW 2 true, upW 3 true], 2⟩
+def wWeightsDown : Wit := ⟨.wrr [1, 3, 1] 0, [upW 1 false, upW 2 true, upW 3 true], 5⟩
+def wWeightsShortPool : Wit := ⟨.wrr [1, 2, 3] 0, [upW 1 true, upW 2 true], 6⟩
+
 /-- FULL: no selection panics. Fails: weighted round robin indexes `r.Weights[i]` for every
     available upstream; pool longer than the weight list (weights 1,1; first of three down). -/
-theorem select_never_panics_full_fails_index :
-    (select true (.wrr [1, 1] 0) [upW 1 false, upW 2 true, upW 3 true] []).res = .panicIdx := by decide
+theorem select_never_panics_full_fails_index : wPanicIndex.results = [.panicIdx] := by decide
 
 /-- FULL: no selection panics. Fails: `… % r.totalWeight` with two or more weights, all 0. -/
-theorem select_never_panics_full_fails_divide :
-    (select true (.wrr [0, 0] 0) [upW 1 true] []).res = .panicDiv := by decide
+theorem select_never_panics_full_fails_divide : wPanicDivide.results = [.panicDiv] := by decide
 
 /-- FULL: no selection panics. Fails: a header / query policy whose key is absent calls its
     fallback with a nil ResponseWriter; a cookie fallback then sets a cookie on it. -/
-theorem select_never_panics_full_fails_nil_writer :
-    (select true (.keyed false (.cookie none .first)) [upW 1 true] []).res = .panicNil := by decide
+theorem select_never_panics_full_fails_nil_writer : wPanicNilWriter.results = [.panicNil] := by decide
 
 /-- FULL: round robin returns an upstream whenever one is available. Fails when the uint32
     counter wraps and the pool size does not divide 2^32: from counter 2^32-2 the probes visit
     positions 0, 0, 1 of a pool of three — position 2, the only available one, is skipped. -/
 theorem roundRobin_some_if_any_available_full_fails :
-    anyAvail [upW 1 false, upW 2 false, upW 3 true] = true ∧
-    (selRR [upW 1 false, upW 2 false, upW 3 true] 4294967294).1 = .none := by decide
+    anyAvail wRRWrapNil.pool = true ∧ wRRWrapNil.results = [.none] := by decide
 
 /-- FULL: consecutive round-robin selections walk through the available upstreams in cyclic
     order. Fails at the same wrap-around: upstream 0 is returned twice in a row although all
     three upstreams are available. -/
-theorem roundRobin_cycles_full_fails :
-    (run 2 (.rr 4294967294) [upW 1 true, upW 2 true, upW 3 true] []).1.map (·.1) = [.sel 0, .sel 0] := by decide
+theorem roundRobin_cycles_full_fails : wRRWrapRepeat.results = [.sel 0, .sel 0] := by decide
 
 /-- FULL: weighted round robin honours the weights (an upstream with a larger weight is not
     chosen less often over a cycle). Fails when an upstream is down: weights 1,3,1, first
     upstream unavailable; over the 5 selections of a cycle the weight-3 upstream (index 1) is
     chosen twice, the weight-1 upstream (index 2) three times. -/
 theorem weightedRR_honours_weights_full_fails :
-    (run 5 (.wrr [1, 3, 1] 0) [upW 1 false, upW 2 true, upW 3 true] []).1.map (·.1)
-      = [.sel 2, .sel 2, .sel 2, .sel 1, .sel 1] := by decide
+    wWeightsDown.results = [.sel 2, .sel 2, .sel 2, .sel 1, .sel 1] := by decide
 
 /-- the same clause fails when there are more weights than upstreams: weights 1,2,3 on two
     available upstreams; over the 6 selections of a cycle the weight-1 upstream is chosen four
     times, the weight-2 upstream twice -/
 theorem weightedRR_honours_weights_full_fails_short_pool :
-    (run 6 (.wrr [1, 2, 3] 0) [upW 1 true, upW 2 true] []).1.map (·.1)
-      = [.sel 1, .sel 1, .sel 0, .sel 0, .sel 0, .sel 0] := by decide
+    wWeightsShortPool.results = [.sel 1, .sel 1, .sel 0, .sel 0, .sel 0, .sel 0] := by decide
+
+/-! ### the same counter-examples as protocol lines (rendered from the terms above) -/
+
+def showOpt : Option Nat → String
+  | none => "-"
+  | some n => toString n
+
+def showUp (u : Up) : String :=
+  ":".intercalate [toString u.id, if u.healthy then "1" else "0", toString u.fails, showOpt u.maxFails,
+    (match u.cb with | none => "-" | some true => "1" | some false => "0"),
+    toString u.load, toString u.maxReq, toString u.h]
+
+def showNats (l : List Nat) : String := if l.isEmpty then "-" else ",".intercalate (l.map toString)
+
+def showPolicy : Policy → String
+  | .first => "first"
+  | .rr c => "rr:" ++ toString c
+  | .wrr ws c => "wrr:" ++ toString c ++ ":" ++ showNats ws
+  | .leastConn => "lc"
+  | .random => "rnd"
+  | .randomChoose k => "rc:" ++ toString k
+  | .hash => "urih"
+  | .keyed true fb => "hdr+>" ++ showPolicy fb
+  | .keyed false fb => "hdr->" ++ showPolicy fb
+  | .cookie c fb => "ck:" ++ showOpt c ++ ">" ++ showPolicy fb
+
+def Wit.line (w : Wit) : String :=
+  "C08 sel " ++ showPolicy w.p ++ " " ++ (if w.pool.isEmpty then "-" else ",".intercalate (w.pool.map showUp))
+    ++ " " ++ toString w.n ++ " 0 -"
 
 /-- counter-example lines replayed on the implementation on every run -/
-def witnessLines : List String := [
-  "C08 sel wrr:0:1,1 1:0:0:-:-:0:0:0,2:1:0:-:-:0:0:0,3:1:0:-:-:0:0:0 1 0 -",
-  "C08 sel wrr:0:0,0 1:1:0:-:-:0:0:0 1 0 -",
-  "C08 sel hdr->ck:->first 1:1:0:-:-:0:0:0 1 0 -",
-  "C08 sel rr:4294967294 1:0:0:-:-:0:0:0,2:0:0:-:-:0:0:0,3:1:0:-:-:0:0:0 1 0 -",
-  "C08 sel rr:4294967294 1:1:0:-:-:0:0:0,2:1:0:-:-:0:0:0,3:1:0:-:-:0:0:0 2 0 -",
-  "C08 sel wrr:0:1,3,1 1:0:0:-:-:0:0:0,2:1:0:-:-:0:0:0,3:1:0:-:-:0:0:0 5 0 -",
-  "C08 sel wrr:0:1,2,3 1:1:0:-:-:0:0:0,2:1:0:-:-:0:0:0 6 0 -"
-]
+def witnessLines : List String :=
+  [wPanicIndex, wPanicDivide, wPanicNilWriter, wRRWrapNil, wRRWrapRepeat, wWeightsDown, wWeightsShortPool].map Wit.line
 
 end CaddyModel.C08
